@@ -328,7 +328,7 @@ SPLIT_CHECKS = {
 @prop(
     "C05",
     technique="dominance / reachability ordering of validation raises relative to the state-changing act (attrs.evolve, Job construction, prepare_states_ind) on CFGs; presence table of the documented checks",
-    decides="the rejection-ordering clause: (a) in Task.split the five documented checks (existing splitter, duplicated fields, missing values, unrecognised values, container_ndim for a field not split) and the non-sequence TypeError all precede the attrs.evolve that produces the split task, and Task.combine rejects unknown fields and an existing combiner before copying; (b) Submitter.__call__ raises for combiner-without-splitter and checks rules before Job construction/submit; (c) State.prepare_states runs splitter_validation and combiner_validation before prepare_states_ind; (d) Node._set_state raises for combiner fields not in the splitter when it builds the State; (e) both expanders construct the workflow (hence every node state) before the first get_runnable_tasks.",
+    decides="the rejection-ordering clause: (a) in Task.split the five documented checks (existing splitter, duplicated fields, missing values, unrecognised values, container_ndim for a field not split) and the non-sequence TypeError all precede the attrs.evolve that produces the split task, and Task.combine rejects unknown fields and an existing combiner before copying; (b) Submitter.__call__ raises for combiner-without-splitter and checks rules before Job construction/submit; (c) State.prepare_states runs splitter_validation and combiner_validation before prepare_states_ind; (d) Node._set_state raises for combiner fields not in the splitter when it builds the State, through a filter that name qualification does not make unsatisfiable; (f) _ordering appends the operator once on the one-element unwrapping path; (g) Task.split sets every init=False split/combine field on the evolved copy; (h) splitter/combiner read from a task are deep-copied before qualification; (e) both expanders construct the workflow (hence every node state) before the first get_runnable_tasks.",
     not_decided="equivalence of splitter spellings / re-bracketings (RPN algebra over runtime values).",
     level_note="Trusted: CFG construction; the presence table SPLIT_CHECKS recognises each check by the variables its test compares.",
 )
@@ -346,6 +346,19 @@ def check_c05(A: Analysis, col: Collector):
             col.ok("C05.split", f"Task.split checks `{name}` (`{hit[0][:60]}`)", A.loc(sp.node))
         else:
             col.fail("C05.split", sp.qualname, f"check-missing:{name}", f"Task.split no longer rejects `{name}`", A.loc(sp.node))
+    # a check that reads an exhausted iterator sees nothing and never fires: no single-use iterator
+    # (generator call / generator expression / map, filter, zip ...) bound to a local is read twice
+    import ast as _ast
+
+    pos = _ast.parse("def f(y):\n    g = (x for x in y)\n    a = set(g)\n    return a, list(g)\n").body[0]
+    if len(A.iter_reuse_in(pos, lambda c: False)) != 1:
+        raise AnalysisError("C05: the single-use-iterator rule no longer matches its built-in positive example")
+    val_fns = [sp, A.func("pydra.compose.base.task.Task.combine"), A.func("pydra.engine.node.Node._set_state"), A.func("pydra.engine.submitter.Submitter.__call__")] + [f for f in A.repo.functions.values() if f.module.name == "pydra.engine.state"]
+    for f in val_fns:
+        col.scope(f.qualname)
+        for nm, v, loads in A.iter_reuse(f):
+            col.fail("C05.exhausted", f.qualname, f"single-use-iterator-read-{len(loads)}-times:{shape(v, 60)}", f"`{norm(v, 60)}` is a single-use iterator bound to a local that is read {len(loads)} times in {f.name}: the second reader (`{norm(getattr(loads[1], '_parent', loads[1]), 60)}`) sees it exhausted, so a validation built on it can never fire (e.g. the duplicated-field check after the names were collected into a set)", A.loc(loads[1]))
+    col.ok("C05.exhausted", f"{len(val_fns)} split/combine/state functions: no single-use iterator is bound to a local and read twice (built-in positive example matched)", "")
     cb = A.func("pydra.compose.base.task.Task.combine")
     col.scope(cb.qualname)
     is_copy = lambda n: any(A.callee_names(c, cb) & {"copy.copy", "copy.deepcopy", "attrs.evolve"} for c in _calls(n))
@@ -406,6 +419,83 @@ def check_c05(A: Analysis, col: Collector):
                 col.ok("C05.node", "Node._set_state raises for combiner fields that are not in the splitter, on the path that builds the State (workflow construction time)", A.loc(n))
     if not found:
         col.fail("C05.node", ns.qualname, "combiner-not-in-splitter-unchecked", "Node._set_state no longer rejects combiner fields that are not split", A.loc(ns.node))
+    # ... and the test can fire: the names it looks at come out of add_name_combiner, which qualifies every
+    # name with "<node>.", so a conjunct requiring a name WITHOUT a "." makes the whole filter unsatisfiable
+    qualified = set()
+    for n in walk_own(ns.node):
+        if isinstance(n, ast.Assign) and isinstance(n.value, ast.Call) and any(q.endswith("add_name_combiner") for q in A.callee_names(n.value, ns)):
+            qualified |= {t.id for t in n.targets if isinstance(t, ast.Name)}
+    for comp in [n for n in walk_own(ns.node) if isinstance(n, (ast.ListComp, ast.GeneratorExp, ast.SetComp))]:
+        for gen in comp.generators:
+            if isinstance(gen.iter, ast.Name) and gen.iter.id in qualified and isinstance(gen.target, ast.Name):
+                ev = gen.target.id
+                dead = [c for cond in gen.ifs for c in ([cond] + (cond.values if isinstance(cond, ast.BoolOp) and isinstance(cond.op, ast.And) else [])) if isinstance(c, ast.Compare) and len(c.ops) == 1 and isinstance(c.ops[0], ast.NotIn) and isinstance(c.left, ast.Constant) and c.left.value == "." and isinstance(c.comparators[0], ast.Name) and c.comparators[0].id == ev]
+                if dead:
+                    col.fail("C05.node", ns.qualname, "combiner-check-unsatisfiable", f"the filter `{norm(gen.ifs[0], 80)}` requires a combiner name without a '.', but `{gen.iter.id}` comes out of add_name_combiner, which qualifies every name with the node name: the check can never fire, and a combiner field that is not split is rejected only when the node is started, after the upstream jobs have run", A.loc(comp))
+                else:
+                    col.ok("C05.node", f"the not-split filter over `{gen.iter.id}` (qualified names) has no conjunct that qualification makes unsatisfiable", A.loc(comp))
+    # one-element list/tuple unwrapping in _ordering: the nested call adds the operator, so the path through
+    # it must not reach the trailing append of the sign as well
+    od = A.func("pydra.engine.state._ordering")
+    col.scope(od.qualname)
+    ocfg = A.cfg(od)
+    sign_param = None
+    finals = []
+    for n in ocfg.nodes:
+        if n.kind == "stmt" and isinstance(n.stmt, ast.Expr) and isinstance(n.stmt.value, ast.Call) and isinstance(n.stmt.value.func, ast.Attribute) and n.stmt.value.func.attr == "append" and n.stmt.value.args and isinstance(n.stmt.value.args[0], ast.Name) and n.stmt.value.args[0].id in {p_.arg for p_ in od.params()}:
+            # append(<param>) directly in the function body (not nested in the type dispatch)
+            if n.stmt in od.node.body or any(n.stmt in getattr(b, "body", []) for b in od.node.body if isinstance(b, ast.If) and b in od.node.body and b is od.node.body[-1]):
+                finals.append(n)
+                sign_param = n.stmt.value.args[0].id
+    A.anchor("trailing append(current_sign) in _ordering", finals)
+    rec = [n for n in ocfg.nodes if n.stmt is not None and n.kind in ("stmt", "return") and any(isinstance(c.func, ast.Name) and c.func.id == od.name and any(isinstance(a_, ast.Name) and a_.id == sign_param for a_ in list(c.args) + [k.value for k in c.keywords]) for c in _calls(n))]
+    A.anchor("self-call of _ordering forwarding the sign (one-element unwrapping)", rec)
+    final_ids = {f.id for f in finals}
+    for r in rec:
+        reach = ocfg.reachable_from([m for l, m in r.succ if l in ("n", "T", "F")], labels={"n", "T", "F"})
+        if reach & final_ids:
+            col.fail("C05.unwrap", od.qualname, "sign-appended-twice-after-unwrapping", f"after `{norm(r.stmt, 70)}` (which appends the operator itself) control falls through to `{norm(finals[0].stmt)}`: a one-element list/tuple that is not the first operand emits its operator twice, so ['a', ['b']] is not equivalent to ['a', 'b'] (malformed RPN)", A.loc(r.stmt))
+        else:
+            col.ok("C05.unwrap", "_ordering: the one-element unwrapping returns the nested call; the operator is appended once", A.loc(r.stmt))
+    # split() builds the new task with attrs.evolve, which resets every init=False field: the split/combine
+    # state fields must be set on the evolved copy
+    tcls = A.cls("pydra.compose.base.task.Task")
+    state_fields = [nm for nm, asg in tcls.class_assigns.items() if isinstance(asg.value, ast.Call) and norm(asg.value.func).endswith("field") and (kw := kwarg(asg.value, "init")) is not None and isinstance(kw, ast.Constant) and kw.value is False and nm in ("_splitter", "_combiner", "_container_ndim")]
+    if len(state_fields) < 3:
+        raise AnalysisError(f"C05: init=False split/combine fields of Task: {state_fields}")
+    for n in walk_own(sp.node):
+        if isinstance(n, ast.Assign) and isinstance(n.value, ast.Call) and "attrs.evolve" in A.callee_names(n.value, sp) and isinstance(n.targets[0], ast.Name):
+            var = n.targets[0].id
+            setf = {t.attr for a_ in walk_own(sp.node) if isinstance(a_, ast.Assign) for t in a_.targets if isinstance(t, ast.Attribute) and isinstance(t.value, ast.Name) and t.value.id == var}
+            for fld in state_fields:
+                if fld in setf:
+                    col.ok("C05.carry", f"Task.split sets {fld} on the evolved copy", A.loc(n))
+                else:
+                    col.fail("C05.carry", sp.qualname, f"evolved-copy-loses:{fld}", f"Task.split builds the new task with attrs.evolve, which resets the init=False field {fld}, and does not set it on the copy: a {fld.strip('_')} requested before split() is silently dropped (neither honoured nor rejected)", A.loc(n))
+    # the splitter / combiner read from a task are deep-copied before they are handed to name
+    # qualification and to State, which rewrite nested lists/tuples in place: without the copy the
+    # task's own splitter is rewritten, and a second use of the same task (re-running it, adding it
+    # to another workflow) sees a different splitter than the first
+    for q in ("pydra.engine.node.Node._set_state", "pydra.engine.submitter.Submitter.__call__"):
+        f = A.func(q)
+        for a in walk_own(f.node):
+            if isinstance(a, ast.Attribute) and a.attr in ("_splitter", "_combiner") and isinstance(a.ctx, ast.Load):
+                par = getattr(a, "_parent", None)
+                in_test = False
+                for p_ in parents(a):
+                    if isinstance(p_, ast.If) and is_within(a, p_.test):
+                        in_test = True
+                    if isinstance(p_, (ast.JoinedStr, ast.Raise)):
+                        in_test = True
+                    if isinstance(p_, ast.stmt):
+                        break
+                copied = isinstance(par, ast.Call) and (dotted(par.func) or "").endswith("deepcopy")
+                if in_test:
+                    continue
+                if copied:
+                    col.ok("C05.alias", f"{f.name}: `{norm(a)}` is deep-copied before it is qualified / handed to State", A.loc(a))
+                else:
+                    col.fail("C05.alias", f.qualname, f"task-{a.attr.strip('_')}-aliased", f"`{norm(a)}` is used without deepcopy: name qualification (_add_name) and State rewrite nested splitter lists in place, so the task's own {a.attr.strip('_')} is modified and a later use of the same task runs different jobs than an equivalent fresh spelling", A.loc(a))
     post = A.cls("pydra.engine.node.Node").find_method("__attrs_post_init__")
     if post is not None and any(isinstance(c.func, ast.Attribute) and c.func.attr == "_set_state" for c in A.calls(post)):
         col.ok("C05.node", "Node.__attrs_post_init__ runs _set_state (at workflow construction)", A.loc(post.node))
